@@ -93,7 +93,9 @@ func c14Gate(e *c14env) {
 		// all callers and on that path levels is nil, so the only node touched is the root, whose
 		// clients map the matcher never reads: not a necessary condition, not claimed.)
 		if name == "insert" {
-			if e.insertPrevalidated {
+			if src.errID == nil {
+				c.Discharge("R-C14-2", cons+"|error reported", pos(c, f.Body), "insert receives the levels its callers obtained from the level source and cannot fail itself: the verdict is reported by the callers (R-C14-6 malformed filter reported)")
+			} else if e.insertPrevalidated {
 				c.Discharge("R-C14-2", cons+"|error reported", pos(c, src.call), "every call site of insert is reached only after a loop validated the whole batch: insert's error path is unreachable")
 			} else {
 				e.gateErrorReported(f, cons, src)
@@ -257,14 +259,36 @@ func c14Cache(e *c14env) {
 	}
 	adders := map[string]bool{"Add": true, "ContainsOrAdd": true, "PeekOrAdd": true}
 
+	// the lookup may delegate part of its work to other methods of the level manager
+	// (get -> splitAndCache): the family is analysed as one, the helpers interpreted in place
+	var fam []*flow.Func
+	inFam := map[*ast.BlockStmt]bool{}
+	for _, g := range reach(f, 2) {
+		gd, _ := g.Node.(*ast.FuncDecl)
+		if g == f || (gd != nil && e.recvNamed(gd) == e.roles.lvlT) {
+			fam = append(fam, g)
+			inFam[g.Body] = true
+		}
+	}
+	bind := c14bindings(f, 2)
+	var topicP types.Object
+	if ps := c14params(f); len(ps) == 1 {
+		topicP = ps[0]
+	}
+	isTopic := func(g *flow.Func, x ast.Expr) bool {
+		return topicP != nil && c14denotes(bind, g, c14obj(g, x), topicP, 3)
+	}
 	var split *ast.CallExpr
-	for _, call := range calls(f.Body, false) {
-		if fo, ok := f.Callee(call).(*types.Func); ok && fo == e.roles.split.obj {
-			if split != nil {
-				c.Undecide("R-C14-2", cons+"|cache filled only with valid splits", pos(c, call), "more than one splitTopic call")
-				return
+	var gs *flow.Func
+	for _, g := range fam {
+		for _, call := range calls(g.Body, false) {
+			if fo := c14calleeOf(g, call); fo != nil && fo == e.roles.split.obj {
+				if split != nil {
+					c.Undecide("R-C14-2", cons+"|cache filled only with valid splits", pos(c, call), "more than one splitTopic call")
+					return
+				}
+				split, gs = call, g
 			}
-			split = call
 		}
 	}
 	if split == nil {
@@ -273,10 +297,10 @@ func c14Cache(e *c14env) {
 	}
 	var levels, valid types.Object
 	var validID *ast.Ident
-	ast.Inspect(f.Body, func(n ast.Node) bool {
+	ast.Inspect(gs.Body, func(n ast.Node) bool {
 		if as, ok := n.(*ast.AssignStmt); ok && len(as.Rhs) == 1 && ast.Unparen(as.Rhs[0]) == ast.Expr(split) && len(as.Lhs) == 2 {
-			levels = c14obj(f, as.Lhs[0])
-			valid = c14obj(f, as.Lhs[1])
+			levels = c14obj(gs, as.Lhs[0])
+			valid = c14obj(gs, as.Lhs[1])
 			validID, _ = as.Lhs[1].(*ast.Ident)
 		}
 		return true
@@ -285,39 +309,41 @@ func c14Cache(e *c14env) {
 		c.Violate("R-C14-2", cons+"|cache filled only with valid splits", pos(c, split), "splitTopic's validity verdict is discarded: malformed filters ('a/#/b', 'a+') are accepted")
 		return
 	}
-	var topic types.Object
-	if len(split.Args) == 1 {
-		topic = c14obj(f, split.Args[0])
-	}
-	validKey := f.VarKey(validID)
+	splitOfTopic := len(split.Args) == 1 && isTopic(gs, split.Args[0])
+	validKey := gs.VarKey(validID)
 
 	var gets, adds []*ast.CallExpr
+	callIn := map[*ast.CallExpr]*flow.Func{}
 	var hitOK types.Object
 	var hitVal types.Object
-	for _, call := range calls(f.Body, false) {
-		m, ok := isCacheCall(f, call)
-		if !ok {
-			continue
-		}
-		switch {
-		case adders[m]:
-			adds = append(adds, call)
-		case m == "Get" || m == "Peek":
-			gets = append(gets, call)
-		}
-	}
-	ast.Inspect(f.Body, func(n ast.Node) bool {
-		if as, ok := n.(*ast.AssignStmt); ok && len(as.Rhs) == 1 && len(as.Lhs) == 2 {
-			for _, g := range gets {
-				if ast.Unparen(as.Rhs[0]) == ast.Expr(g) {
-					hitVal, hitOK = c14obj(f, as.Lhs[0]), c14obj(f, as.Lhs[1])
-				}
+	for _, g := range fam {
+		g := g
+		for _, call := range calls(g.Body, false) {
+			m, ok := isCacheCall(g, call)
+			if !ok {
+				continue
+			}
+			callIn[call] = g
+			switch {
+			case adders[m]:
+				adds = append(adds, call)
+			case m == "Get" || m == "Peek":
+				gets = append(gets, call)
 			}
 		}
-		return true
-	})
+		ast.Inspect(g.Body, func(n ast.Node) bool {
+			if as, ok := n.(*ast.AssignStmt); ok && len(as.Rhs) == 1 && len(as.Lhs) == 2 {
+				for _, gc := range gets {
+					if ast.Unparen(as.Rhs[0]) == ast.Expr(gc) {
+						hitVal, hitOK = c14obj(g, as.Lhs[0]), c14obj(g, as.Lhs[1])
+					}
+				}
+			}
+			return true
+		})
+	}
 
-	res := analyze(c, f, flow.Config{NoHavoc: true})
+	res := analyze(c, f, flow.Config{NoHavoc: true, Inline: inlineIf(f, func(callee *types.Func, g *flow.Func) bool { return inFam[g.Body] })})
 	if res == nil {
 		return
 	}
@@ -325,7 +351,7 @@ func c14Cache(e *c14env) {
 	var bad *flow.State
 	why := ""
 	for _, add := range adds {
-		if len(add.Args) < 2 || c14obj(f, add.Args[0]) == nil || c14obj(f, add.Args[0]) != topic {
+		if len(add.Args) < 2 || !splitOfTopic || !isTopic(callIn[add], add.Args[0]) {
 			bad, why = nil, "the cache key is not the string that was split"
 			c.Violate("R-C14-2", cons+"|cache filled only with valid splits", pos(c, add), why+": a later lookup of another topic returns these levels")
 			return
@@ -341,7 +367,7 @@ func c14Cache(e *c14env) {
 		}
 	}
 	for _, g := range gets {
-		if len(g.Args) != 1 || c14obj(f, g.Args[0]) != topic || topic == nil {
+		if len(g.Args) != 1 || !splitOfTopic || !isTopic(callIn[g], g.Args[0]) {
 			c.Violate("R-C14-2", cons+"|cache filled only with valid splits", pos(c, g), "the cache is looked up under a key other than the string that is split and inserted")
 			return
 		}
@@ -354,12 +380,13 @@ func c14Cache(e *c14env) {
 	whyExit := ""
 	n := 0
 	for _, ex := range res.Exits {
-		if ex.Kind != flow.ExitReturn || ex.Return == nil || len(ex.Return.Results) != 2 {
+		ret := ex.Ret()
+		if ex.Kind != flow.ExitReturn || ret == nil || len(ret.Results) != 2 {
 			continue
 		}
 		n++
 		st := ex.State
-		r0, r1 := ast.Unparen(ex.Return.Results[0]), ex.Return.Results[1]
+		r0, r1 := ast.Unparen(ret.Results[0]), ret.Results[1]
 		nn, ok := c14nonNilErr(f, st, r1)
 		if !ok {
 			c.Undecide("R-C14-2", cons+"|verdict propagated", pos(c, ex.Return), "cannot classify the returned error "+f.Render(r1))
@@ -397,7 +424,7 @@ func c14Cache(e *c14env) {
 	// no other producer of cached slices
 	other := 0
 	e.decls(func(g *flow.Func, fd *ast.FuncDecl) {
-		if fd == f.Node {
+		if fd == f.Node || inFam[fd.Body] {
 			return
 		}
 		for _, call := range calls(fd.Body, true) {
